@@ -16,7 +16,7 @@ import (
 // "the file never ran" depends on the journal being played back. Every migration
 // statement here is still `INSERT INTO journal VALUES (id)` (so the model sees an
 // ordinary directory), but an AFTER INSERT trigger on `journal` also writes a
-// 40 kB row into `big` and updates a counter row in `pre` -- both tables (and
+// 40 kB row into `big` and updates one of the 400 3-kB rows of `pre` -- both tables (and
 // their rows) existed before the file ran. All of that is engine-internal: the
 // model's assumption "a killed process loses its open transaction" is what is
 // being tested, the property is judged by the oracle.
@@ -26,20 +26,22 @@ const bigBlob = 40000
 var bigSetup = []string{
 	"CREATE TABLE big (id INTEGER, b BLOB)",
 	fmt.Sprintf("INSERT INTO big VALUES (0, zeroblob(%d))", bigBlob),
-	"CREATE TABLE pre (n INTEGER)",
-	"INSERT INTO pre VALUES (0)",
-	fmt.Sprintf("CREATE TRIGGER journal_big AFTER INSERT ON journal BEGIN INSERT INTO big VALUES (new.id, zeroblob(%d)); UPDATE pre SET n = n + 1; END", bigBlob),
+	// 400 pre-existing rows of 3 kB (one or two per page): statement id updates row id, so every
+	// statement dirties a page of committed content that then goes cold and is spilled
+	"CREATE TABLE pre (k INTEGER PRIMARY KEY, n INTEGER, pad BLOB)",
+	"WITH RECURSIVE c(x) AS (SELECT 1 UNION ALL SELECT x+1 FROM c WHERE x < 400) INSERT INTO pre SELECT x, 0, zeroblob(3000) FROM c",
+	fmt.Sprintf("CREATE TRIGGER journal_big AFTER INSERT ON journal BEGIN INSERT INTO big VALUES (new.id, zeroblob(%d)); UPDATE pre SET n = n + 1 WHERE k = new.id; END", bigBlob),
 }
 
 var bigProbe = []string{
 	"PRAGMA integrity_check",
 	"SELECT count(*), ifnull(sum(length(b)),0) FROM big",
-	"SELECT n FROM pre",
+	"SELECT sum(n), count(*), sum(length(pad)) FROM pre",
 }
 
 func bigExtra(journal []int) string {
 	n := len(journal)
-	return fmt.Sprintf("ok;%d|%d;%d", n+1, (n+1)*bigBlob, n)
+	return fmt.Sprintf("ok;%d|%d;%d|400|1200000", n+1, (n+1)*bigBlob, n)
 }
 
 func genC10Big(w *out.W, tier string) []job {
@@ -111,18 +113,18 @@ func genC10Big(w *out.W, tier string) []job {
 					} else if res[0].Exit == "crash" {
 						w.NonTrivial(fmt.Sprintf("%s|%s|%s|%d", label, m, p, k))
 					}
-					if m != "none" && (p == "after-exec" || p == "before-commit" || p == "after-write" || p == "before-exec") && !spilled && k > 20 {
-						w.Violation(id, "harness", fmt.Sprintf("big-not-spilled: %s mode=%s crash=%s:%d: the scenario is meant to kill a transaction that has spilled pages, but hot-journal=%d bytes, db file=%d bytes, journal rows=%d (generator no longer reaches the class)", label, m, p, k, res[0].HotJournal, res[0].DBSize, len(res[0].Journal)))
-						return
-					}
+					v0 := w.Viol
 					oracleC10(w, id, label, files, m, p, k, res)
 					// the engine side of every statement (trigger rows in tables that existed before)
 					// follows the journal exactly, and the file is structurally sound
 					for si, o := range res {
 						if o.Extra != bigExtra(o.Journal) {
-							w.Violation(id, "big-side-effects", fmt.Sprintf("%s mode=%s crash=%s:%d step %d: integrity;big rows|bytes;pre counter = %s, want %s for %d journal rows (hot-journal=%d db=%d)", label, m, p, k, si, o.Extra, bigExtra(o.Journal), len(o.Journal), res[0].HotJournal, res[0].DBSize))
+							w.Violation(id, "big-side-effects", fmt.Sprintf("%s mode=%s crash=%s:%d step %d: integrity;big rows|bytes;pre sum(n)|rows|bytes = %s, want %s for %d journal rows (hot-journal=%d db=%d)", label, m, p, k, si, o.Extra, bigExtra(o.Journal), len(o.Journal), res[0].HotJournal, res[0].DBSize))
 							return
 						}
+					}
+					if m != "none" && (p == "after-exec" || p == "before-commit" || p == "after-write" || p == "before-exec") && !spilled && k > 20 && w.Viol == v0 {
+						w.Violation(id, "harness", fmt.Sprintf("big-not-spilled: %s mode=%s crash=%s:%d: the scenario is meant to kill a transaction that has spilled pages, but hot-journal=%d bytes, db file=%d bytes, journal rows=%d (generator no longer reaches the class)", label, m, p, k, res[0].HotJournal, res[0].DBSize, len(res[0].Journal)))
 					}
 				}})
 			}
